@@ -501,9 +501,29 @@ def run_scenarios(scens, mode, ctx, workers=8):
 def explore(ctx, res):
     """when a build/proof step broke (ctx["deep"]) the quick budget runs first; only if it finds no concrete failing
     input the thorough budget (every byte offset, more histories) is spent"""
+    if ctx.get("replay"):
+        return replay_file(ctx, res, ctx["replay"])
     explore_tier(ctx, res, ctx["tier"])
     if ctx["deep"] and ctx["tier"] != "thorough" and not any(f for _, f in res.violations):
         explore_tier(ctx, res, "thorough")
+
+
+def replay_file(ctx, res, path):
+    """./check C13 --replay f: re-run the ops of a replay file on a fresh node directory and re-evaluate the oracle"""
+    rep = json.load(open(path))
+    ops = rep["ops"]
+    mode = (rep.get("harness_args") or ["crash", "quick"])[1]
+    (impl, model), = run_scenarios([ops], mode, ctx, workers=1)
+    stats = {"evaluations": 0, "ops": {}, "cuts": {}, "torn": {}, "loads": {}, "traces": {}, "restarts": 0, "distinct": set()}
+    seen = set()
+    for sig, replay in evaluate(ops, impl, None, res, stats, ctx, "replay:" + os.path.basename(path)):
+        if sig not in seen:
+            seen.add(sig)
+            res.report(sig, dict(replay, harness_args=["crash", mode]))
+    res.cov["evaluations"] = stats["evaluations"]
+    res.cov["distinct_nontrivial"] = len(stats["distinct"])
+    res.cov["rule"] = "replay of " + path
+    res.cov["distribution"] = {"signatures_reproduced": sorted(seen), "wanted": rep.get("signature")}
 
 
 def explore_tier(ctx, res, tier):
@@ -519,19 +539,19 @@ def explore_tier(ctx, res, tier):
         scens.append(scenario_fixed(sch, 4 + (k + seed) % 3, 30, 1000 * seed + k)); names.append(f"fixed:{sch}")
     scens.append(scenario_join_evict(SCHEMES[(seed + 1) % 5], 4, 30, 77 * seed)); names.append("join-evict")
     scens.append(scenario_first_evict(SCHEMES[(seed + 2) % 5], 5, 30, 78 * seed)); names.append("first-evict")
-    nrand = 6 if tier == "quick" else 60
+    nrand = 4 if tier == "quick" else 60
     for k in range(nrand):
         scens.append(scenario_random(rng.fork(f"rand{k}"), 10 if tier == "quick" else 16)); names.append(f"random:{k}")
     # the hand-over order is the one extracted from the source
     scens = [[o + f" order={order}" if o.startswith("dkg ") and not o.startswith("dkg skip") and "order=" not in o else o for o in s] for s in scens]
     mode = "quick" if tier == "quick" else "all"
-    # thorough: every byte offset for the fixed scenarios, sampled offsets for the random ones
-    results = []
+    # thorough: every byte offset of every file written in the corpus scenarios (first DKG, resharing, join+eviction),
+    # sampled offsets (line boundaries, mid-line, 1, half, len-1) for all other histories
     if tier == "thorough":
-        nfixed = len(scens) - nrand
-        results = run_scenarios(scens[:nfixed], "all", ctx, workers=12) + run_scenarios(scens[nfixed:], "quick", ctx, workers=12)
+        ncorpus = len([n for n in names if n.startswith("corpus:")])
+        results = run_scenarios(scens[:ncorpus], "all", ctx, workers=12) + run_scenarios(scens[ncorpus:], "quick", ctx, workers=12)
     else:
-        results = run_scenarios(scens, "lines" if False else "quick", ctx, workers=12)
+        results = run_scenarios(scens, "quick", ctx, workers=12)
     stats = {"evaluations": 0, "ops": {}, "cuts": {}, "torn": {}, "loads": {}, "traces": {}, "restarts": 0, "distinct": set()}
     validated = 0
     reported = set()
@@ -561,7 +581,7 @@ def explore_tier(ctx, res, tier):
     res.cov["rule"] = ("scripted histories on one real node directory per scenario (fixed: first DKG → beacons → reshare(stay) → restart → failed DKG → left; "
                        "join → evicted; first → evicted; seeded random walks over init/staged/dkg first|join|stay|evict|skip/beacon/load/restart, 3–6 nodes, 5 schemes); "
                        "for every persistence step observed (inotify events of the groups folder, bbolt commit counter) the directory image before, after and — for a file "
-                       "written in place — with the file cut at every line boundary, mid-line, 1, ½, len−1 (quick) or every byte offset (thorough, fixed scenarios) is "
+                       "written in place — with the file cut at every line boundary, mid-line, 1, ½, len−1 (quick) or every byte offset (thorough, corpus scenarios) is "
                        "materialised and the real LoadBeaconFromStore + raw loaders run on it. evaluations = crash images recovered; "
                        "non-trivial = distinct (DKG kind, membership, previous completed epoch, step, torn?, recovered record)")
     res.cov["distribution"] = {"ops_by_kind": stats["ops"], "images_by_step": stats["cuts"], "torn_prefix_classes": stats["torn"],
